@@ -59,7 +59,7 @@ VARIABLES cur, txt
 vars == <<parent, kind, decl, cur, txt>>
 
 FN == "http://www.w3.org/2005/xpath-functions"
-PosStr(k) == <<"1", "2", "3", "4", "5", "6", "7", "8", "9">>[k]
+PosStr(k) == <<"1", "2", "3", "4", "5", "6", "7", "8", "9", "10", "11", "12", "13", "14">>[k]
 
 ---------------------------------------------------------------------------
 (* Definitional side *)
@@ -164,10 +164,11 @@ Walk(st) == /\ Sel(cur, st) # {}
 
 StepUniverse ==
        {[ax |-> "child", k |-> "elem", ns |-> s, nm |-> l, pos |-> p] :
-            s \in {"", "urn:n", "urn:d"}, l \in {"a", "b"}, p \in 1..N}
+            s \in {"", "urn:n", "urn:d", XMLNS}, l \in {"a", "b"}, p \in 1..N}
   \cup {[ax |-> "child", k |-> kk, ns |-> "", nm |-> "", pos |-> p] : kk \in {"text", "comment"}, p \in 1..N}
   \cup {[ax |-> "child", k |-> "pi", ns |-> "", nm |-> tg, pos |-> p] : tg \in {"pi", "a"}, p \in 1..N}
   \cup {[ax |-> "attribute", k |-> "attr", ns |-> s, nm |-> "a", pos |-> 0] : s \in {"", "urn:n"}}
+  \cup {[ax |-> "attribute", k |-> "attr", ns |-> XMLNS, nm |-> "lang", pos |-> 0]}
   \cup {[ax |-> "namespace", k |-> "ns", ns |-> "", nm |-> pf, pos |-> 0] : pf \in {"xml", "", "p"}}
 
 Next == \E st \in StepUniverse : Walk(st)
